@@ -8,6 +8,7 @@ import (
 	"fmt"
 	"math/bits"
 	"sort"
+	"strconv"
 	"strings"
 )
 
@@ -64,8 +65,16 @@ type Term struct {
 	ID   int
 }
 
+type tkey struct {
+	op      Op
+	w       int
+	val     uint64
+	name    string
+	a, b, c int
+}
+
 type Ctx struct {
-	table map[string]*Term
+	table map[tkey]*Term
 	next  int
 	True  *Term
 	False *Term
@@ -74,19 +83,31 @@ type Ctx struct {
 }
 
 func NewCtx() *Ctx {
-	c := &Ctx{table: map[string]*Term{}, ufs: map[string][]int{}}
+	c := &Ctx{table: map[tkey]*Term{}, ufs: map[string][]int{}}
 	c.True = c.mk(OpConst, 0, 1, "", nil)
 	c.False = c.mk(OpConst, 0, 0, "", nil)
 	return c
 }
 
 func (c *Ctx) mk(op Op, w int, val uint64, name string, args []*Term) *Term {
-	var sb strings.Builder
-	fmt.Fprintf(&sb, "%d|%d|%d|%s", op, w, val, name)
-	for _, a := range args {
-		fmt.Fprintf(&sb, "|%d", a.ID)
+	k := tkey{op: op, w: w, val: val, name: name, a: -1, b: -1, c: -1}
+	switch len(args) {
+	case 0:
+	case 1:
+		k.a = args[0].ID
+	case 2:
+		k.a, k.b = args[0].ID, args[1].ID
+	case 3:
+		k.a, k.b, k.c = args[0].ID, args[1].ID, args[2].ID
+	default:
+		buf := make([]byte, 0, len(args)*6+len(name)+1)
+		buf = append(buf, name...)
+		for _, a := range args {
+			buf = append(buf, '|')
+			buf = strconv.AppendInt(buf, int64(a.ID), 36)
+		}
+		k.name = string(buf)
 	}
-	k := sb.String()
 	if t, ok := c.table[k]; ok {
 		return t
 	}
@@ -652,13 +673,17 @@ func smtName(s string) string {
 	return "|" + strings.NewReplacer("|", "_", "\\", "_").Replace(s) + "|"
 }
 
+// varSMT is the solver-level name of a variable: the width is part of it so the
+// same harness name may be used at different widths in different instances.
+func varSMT(t *Term) string { return smtName(fmt.Sprintf("%s!%d", t.Name, t.W)) }
+
 // ref is how a term is referred to from other definitions.
 func ref(t *Term) string {
 	switch t.Op {
 	case OpConst:
 		return constLit(t)
 	case OpVar:
-		return smtName(t.Name)
+		return varSMT(t)
 	}
 	return fmt.Sprintf("t%d", t.ID)
 }
